@@ -676,7 +676,9 @@ class Origins:
         if k == "discr":
             return O("discr", self.place(rv["pl"], depth))
         if k == "cast":
-            return O("cast", rv["kind"], self.operand(rv["op"], depth))
+            tt = self.body.ty(rv["ty"])
+            bits = tt.get("bits") if tt.get("k") == "int" else None
+            return O("cast", rv["kind"], self.operand(rv["op"], depth), bits)
         if k == "binop":
             return O("bin", rv["op"], self.operand(rv["a"], depth), self.operand(rv["b"], depth))
         if k == "unop":
